@@ -189,6 +189,15 @@ def state_atoms(state) -> set:
     return out
 
 
+def is_refusal(e: BaseException) -> bool:
+    """An inapplicable action is 'refused - an error': any exception type counts (the library raises ValueError today; a
+    dedicated exception class would be as good), except the TypeError/AttributeError that an unmodelled operation on one
+    of the symbolic proxies produces -- that one must reach the path driver and make the task inconclusive."""
+    if isinstance(e, (TypeError, AttributeError)) and any(n in str(e) for n in ("SymBool", "SymReal", "SymStr", "SymChar", "FinStr")):
+        return False
+    return isinstance(e, Exception)
+
+
 def fluent_name(f) -> str:
     """'(name arg ...)' of a grounded fluent as the library prints it in a state, i.e. with repeated arguments repeated
     (PDDLFunction.untyped_representation is documented as the lifted form and prints each argument name once)"""
